@@ -129,7 +129,7 @@ impl Engine for E {
             "C08" => {
                 p.cases = if quick { 8 } else { 160 };
                 p.timeout_s = if quick { 1200 } else { 3 * 3600 };
-                p.rule = "case = one full identity pipeline over the library's own functions: IP with n ARs (n,t cycled over all 1<=t<=n<=6), v0 (generate_pio, validate_request, verify_credentials, verify_initial_cdi) or v1 (generate_pio_v1_with_rng, validate_request_v1, verify_credentials_v1) identity object, attribute lists of 0/1/3/13 values (lengths 0..31), policy revealing none/one/all, max_accounts 4/255/random, counter 0/1/max-1/max, new or existing account, 1-3 credential keys; create_credential; verify_cdi. evaluations = judged executions: every honest stage must accept (also after a serialization round trip); every subset of >= t revokers must reconstruct g^idCredSec from the decrypted AR data (and the PRF key from the pre-identity object on part of the n<=3 pipelines), subsets of size t-1 must not; verify_cdi must reject each single-field perturbation of values / commitments / challenge / every response scalar / range proof component / account signatures / wire bytes, a different expiry/address/IP key/AR key/global context, and counter = max_accounts+1 must not yield an accepted credential. Every 4th case additionally probes an IP key of exactly the minimal length. distinct_nontrivial = distinct accepted credentials (configuration + CDI bytes)".into();
+                p.rule = "case = one full identity pipeline over the library's own functions: IP with n ARs (n,t cycled over all 1<=t<=n<=6), v0 (generate_pio, validate_request, verify_credentials, verify_initial_cdi) or v1 (generate_pio_v1_with_rng, validate_request_v1, verify_credentials_v1) identity object, attribute lists of 0/1/3/13 values (lengths 0..31), policy revealing none/one/all, max_accounts 4/255/random, counter 0/1/max-1/max, new or existing account, 1-3 credential keys with contiguous or sparse key indices, the chosen revokers being a prefix 1..=n or a sparse non-prefix subset of the revokers known to the provider and the chain; create_credential; verify_cdi. evaluations = judged executions: every honest stage must accept (also after a serialization round trip); every subset of >= t revokers must reconstruct g^idCredSec from the decrypted AR data (and the PRF key from the pre-identity object on part of the n<=3 pipelines), subsets of size t-1 must not; verify_cdi must reject each single-field perturbation of values / commitments / challenge / every response scalar / range proof component / account signatures / wire bytes / the key structure of every map (signatures, keys, AR data, proofs, commitments, policy re-indexed in place; also in the identity request), a different expiry/address/IP key/AR key/global context, and counter = max_accounts+1 must not yield an accepted credential. Every 4th case additionally probes an IP key of exactly the minimal length. distinct_nontrivial = distinct accepted credentials (configuration + CDI bytes)".into();
                 p.assumptions.push("fixtures come from concordium_base::id::test (feature internal-test-helpers): test_create_ip_info, test_create_ars, test_create_id_use_data; ground truth for revocation is g^idCredSec / the PRF key taken from the holder's secret data".into());
                 p.assumptions.push("generate_pio (v0), create_credential and sign_identity_object use thread_rng() inside the library: configurations are reproducible from the seed, proof randomness is not; violation records carry the CDI bytes".into());
                 let s = if quick { 1 } else { 10 };
@@ -146,7 +146,8 @@ impl Engine for E {
                     ("cfg.account.new", 15), ("cfg.account.existing", 15),
                     ("revoke.id_cred_pub.subset", 400), ("revoke.id_cred_pub.size_t", 150), ("revoke.id_cred_pub.size_gt_t", 250), ("revoke.id_cred_pub.below_threshold", 50),
                     ("revoke.prf_key.subset", 10), ("revoke.prf_key.below_threshold", 4),
-                    ("perturb.counter.max+1", 20), ("perturb.initial_cdi.expiry", 15), ("probe.minimal_ps_key", 8), ("probe.minimal_ps_key.ok", 8), ("probe.minimal_ps_key.ars1", 2), ("probe.minimal_ps_key.ars2", 2), ("probe.minimal_ps_key.ars3", 2), ("probe.minimal_ps_key.attrs0", 2), ("probe.minimal_ps_key.attrs1", 2), ("probe.minimal_ps_key.attrs2", 2), ("probe.minimal_ps_key.attrs3", 2), ("reject.expected", 3000),
+                    ("perturb.counter.max+1", 20), ("cfg.ar_choice.prefix", 10), ("cfg.ar_choice.sparse", 25), ("cfg.ar_choice.proper_subset_of_known", 20), ("cfg.ar_choice.sparse_threshold_ge_2", 15),
+                    ("cfg.keys.sparse", 30), ("cfg.keys.contiguous", 10), ("perturb.pio.proof_acc_sk.shifted", 15), ("perturb.pio.ip_ar_data.shifted", 8), ("perturb.pio.vk_acc.keys.shifted", 6), ("perturb.pio_v1.ip_ar_data.shifted", 8), ("perturb.initial_cdi.expiry", 15), ("probe.minimal_ps_key", 8), ("probe.minimal_ps_key.ok", 8), ("probe.minimal_ps_key.ars1", 2), ("probe.minimal_ps_key.ars2", 2), ("probe.minimal_ps_key.ars3", 2), ("probe.minimal_ps_key.attrs0", 2), ("probe.minimal_ps_key.attrs1", 2), ("probe.minimal_ps_key.attrs2", 2), ("probe.minimal_ps_key.attrs3", 2), ("reject.expected", 3000),
                 ];
                 for k in [
                     "bytes.bitflip", "context.ar_key", "context.global", "context.ip_key", "context.new_or_existing.kind", "context.new_or_existing.value", "proofs.challenge",
@@ -155,6 +156,8 @@ impl Engine for E {
                     "proofs.proof_ip_sig", "proofs.proof_reg_id", "proofs.range_proof", "proofs.sig", "values.ar_data", "values.ar_data.remove", "values.ar_data.swap", "values.cred_id",
                     "values.cred_key_info.key", "values.cred_key_info.threshold", "values.ip_identity", "values.policy.created_at", "values.policy.revealed_added",
                     "values.policy.revealed_removed", "values.policy.revealed_value", "values.policy.valid_to", "values.threshold",
+                    "context.ar_unknown", "index.ar_data.shifted", "index.ar_data_and_proofs.shifted", "index.cmm_attributes.shifted", "index.cred_key_info.shifted", "index.policy.shifted",
+                    "index.proof_acc_sk.last_moved", "index.proof_acc_sk.shifted", "index.proof_id_cred_pub.shifted",
                 ] {
                     p.floors.push((format!("perturb.cdi.{}", k), 12 * s));
                 }
